@@ -233,9 +233,31 @@ struct Engine
                 uint64_t v;
                 if (input == 0) v = r.next();
                 else if (input == 1) v = r.below(3) ? g.fixed[r.below(g.fixed.size())] : g.pick(r);
+                else if (input == 3) v = 0;
                 else v = (i == c) ? 1 : 0;
                 io->in[i * ncols + c] = v;
             }
+        if (input == 3)
+        {
+            // structured data: the RESULT (INTT) resp. the INPUT (NTT) resp. the interpolated polynomial (extendPol) is sparse - whole
+            // rows that are exactly zero, in the lower and in the upper half, constants, low degree - with small / boundary non-zero values
+            std::vector<std::vector<uint64_t>> sp(ncols, std::vector<uint64_t>(n, 0));
+            int style = (int)r.below(4);
+            std::vector<uint64_t> rows;
+            if (style == 0) rows = {0};                                                  // constants
+            else if (style == 1) for (uint64_t k = 0; k < (n + 1) / 2; k++) { if (r.coin()) rows.push_back(k); } // degree < n/2
+            else if (style == 2) { rows.push_back(r.below(n)); if (n > 2) rows.push_back(n / 2 + r.below(n / 2)); }
+            else for (uint64_t k = 0; k < n; k++) { if (r.below(4) == 0) rows.push_back(k); }
+            for (uint64_t c = 0; c < ncols; c++)
+                for (uint64_t k : rows) sp[c][k] = r.coin() ? 1 + r.below(3) : (r.coin() ? PP - 1 - r.below(3) : g.pick(r));
+            std::vector<uint64_t> o;
+            for (uint64_t c = 0; c < ncols; c++)
+            {
+                if (kind == K_NTT) o = sp[c];
+                else oracle_dft(o, sp[c], d, false, naive_max); // the forward transform of the sparse vector: INTT / interpolation gives it back
+                for (uint64_t i = 0; i < n; i++) io->in[i * ncols + c] = orc::canon(o[i]);
+            }
+        }
         io->out.resize(nout * ncols);
         std::vector<uint64_t> col(n), o;
         for (uint64_t c = 0; c < ncols; c++)
@@ -379,6 +401,7 @@ struct Engine
             if (c.kind == K_EXT && effp % 2 == 0 && effb == 1 && c.e > c.d) rp.cls("cfg:extend_onsite_zero_padding");
             if (c.input == 2) rp.cls("cfg:identity_matrix_input");
             if (c.input == 1) rp.cls("cfg:boundary_input");
+            if (c.input == 3) rp.cls("cfg:sparse_structured_input");
             if (c.preuse) rp.cls("cfg:object_used_before");
         }
         return ok;
@@ -417,7 +440,7 @@ static void build_grid(std::vector<Cfg> &out, int kind, int Smax, int dmin_large
                                 Cfg c;
                                 c.kind = kind; c.S = S; c.d = d; c.ncols = ncols; c.nphase = ph; c.nblock = nb; c.buffer = buffer; c.alias = alias;
                                 c.threads = THREADS_SET[hsh / 7 % 7];
-                                c.input = (hsh / 49) % 4 == 0 ? 1 : 0;
+                                c.input = (hsh / 49) % 4 == 0 ? 1 : ((hsh / 49) % 4 == 1 ? 3 : 0);
                                 c.preuse = (hsh / 343) % 6 == 0 && d >= 0 ? 1 : 0;
                                 out.push_back(c);
                             }
@@ -467,7 +490,7 @@ static void build_grid(std::vector<Cfg> &out, int kind, int Smax, int dmin_large
         uint64_t br = r.below(6);
         c.nblock = br == 0 ? ~0ULL : (br == 1 ? 0 : 1 + r.below(c.ncols + 1));
         c.buffer = (int)r.below(2); c.alias = (int)r.below(3); c.threads = THREADS_SET[r.below(7)];
-        c.input = r.below(5) == 0 ? 1 : 0;
+        c.input = r.below(5) == 0 ? 1 : (r.below(5) == 0 ? 3 : 0);
         out.push_back(c);
     }
 }
@@ -494,7 +517,7 @@ static void build_ext_grid(std::vector<Cfg> &out, int emax, int elarge_min, int 
                                     Cfg c;
                                     c.kind = K_EXT; c.d = a; c.e = e; c.S = a + sx * (1 + (int)(hsh % 2)); c.ncols = ncols; c.nphase = ph; c.nblock = nb; c.buffer = buffer; c.alias = alias;
                                     c.threads = THREADS_SET[hsh / 7 % 7];
-                                    c.input = (hsh / 49) % 4 == 0 ? 1 : 0;
+                                    c.input = (hsh / 49) % 4 == 0 ? 1 : ((hsh / 49) % 4 == 1 ? 3 : 0);
                                     c.preuse = (hsh / 343) % 6 == 0 ? 1 : 0;
                                     out.push_back(c);
                                 }
@@ -513,7 +536,7 @@ static void build_ext_grid(std::vector<Cfg> &out, int emax, int elarge_min, int 
         uint64_t br = r.below(6);
         c.nblock = br == 0 ? ~0ULL : (br == 1 ? 0 : 1 + r.below(c.ncols + 1));
         c.buffer = (int)r.below(2); c.alias = (int)r.below(2); c.threads = THREADS_SET[r.below(7)];
-        c.input = r.below(5) == 0 ? 1 : 0;
+        c.input = r.below(5) == 0 ? 1 : (r.below(5) == 0 ? 3 : 0);
         out.push_back(c);
     }
 }
@@ -595,7 +618,7 @@ static void run_omp_callers(const vf::Args &args, Report &rep, Engine &eng, int 
                 c.nblock = 1 + q.below(3);
                 c.alias = (int)q.below(2);
                 c.threads = 1 + (unsigned)q.below(4);
-                c.input = (int)q.below(2);
+                c.input = q.coin() ? 3 : (int)q.below(2);
                 io[t] = eng.get(kind, c.d, c.e, c.input, c.ncols);
             }
             g_record = false;
@@ -801,7 +824,7 @@ static void run_histories(const vf::Args &args, Report &rep, Engine &eng)
             c.nblock = br == 0 ? ~0ULL : (style == 3 ? (k % 2 ? 1 : 2) : 1 + q.below(c.ncols + 1));
             c.buffer = (int)q.below(2);
             c.alias = kind == K_EXT ? (int)q.below(2) : (int)q.below(3);
-            c.input = q.below(6) == 0 ? 1 : 0;
+            c.input = q.below(6) == 0 ? 1 : (q.below(6) == 0 ? 3 : 0);
             seq.push_back(c);
         }
     };
